@@ -411,7 +411,7 @@ class _Life:
                 cf.connection_requested.call('sim://0')
                 cf.link = link
                 done = []
-                cf.platform.fetch_platform_informations(lambda: cf.log.refresh_toc(lambda: done.append(1), cf._toc_cache))
+                cf.platform.fetch_platform_informations(lambda: cf.log.refresh_toc(lambda: done.append(1), self.seqcf._toc_cache_of(cf)))
                 self.seqcf.pump(cf)
                 if not done:
                     self.errors.append(('reconnect', 'TOC refresh did not finish'))
